@@ -1,6 +1,6 @@
 /-
 Props/C12.lean — C12 "Every ID3 frame type survives binary encoding".
-Property theorems only; lemmas in Proofs/Id3Text.lean and Proofs/Id3Spec.lean; the frame
+Property theorems only; lemmas in Proofs/Id3Spec.lean; the frame
 table is Generated/Id3Table.lean (regenerated from /repo on every run).
 
 What is proved here, about the model (Model/Id3Text.lean, Model/Id3Spec.lean):
@@ -225,7 +225,7 @@ theorem read_write_aspiIndex (E : Env) (c : Ctx) (b : Int) (hb : b = 8 ∨ b = 1
 /-- ID3FramesSpec (CHAP/CTOC sub-frames), relative to the nested writer/reader: if that pair
 round-trips on the frame list, so does the spec -/
 theorem read_write_frames (E : Env) (c : Ctx) (fs : List Val) (b : Bytes) (hw : E.subw E.cfg fs = .ok b)
-    (hr : E.sub E.h b = .ok (fs, [])) :
+    (hr : E.sub { E.h with unsynch := false } b = .ok (fs, [])) :
     writeSpec E.subw E.cfg .frames c (.list fs) = .ok b ∧
       readSpec E.sub E.h .frames c b = .ok (.list fs, []) := by
   obtain ⟨b', h1, h2⟩ := read_write_spec E c .frames (.list fs) ⟨fs, b, rfl, hw, hr⟩ [] ⟨fun _ => rfl, by simp [isEncText]⟩
@@ -335,16 +335,16 @@ theorem flags_equiv_unsynch_datalen (sub : Hdr → Bytes → Except PyErr (List 
 /-! ## where the faithful model does NOT satisfy the property (replayed on the implementation
 by harness/props/c12.py under the keys `RVAD:mixed-width` and `APIC:v2.3:zero-tail`) -/
 
-/-- RVASpec pads the big-endian magnitudes on the right: values of different byte widths do
-not survive (`[1, 70000]` comes back as `[256, 70000]`) -/
-theorem rva_mixed_width_counterexample :
-    writeRva 12 (.list [.int 1, .int 70000]) = .ok [0x03, 0x18, 0x00, 0x01, 0x00, 0x01, 0x11, 0x70] ∧
-    (match readRva 12 [0x03, 0x18, 0x00, 0x01, 0x00, 0x01, 0x11, 0x70] with
-     | .ok (v, r) => Val.beq v (.list [.int 256, .int 70000]) && r.isEmpty
+/-- RVASpec pads the big-endian magnitudes on the left, so values of different byte widths
+survive (before the repair `[1, 70000]` came back as `[256, 70000]`) -/
+theorem rva_mixed_width_instance :
+    writeRva 12 (.list [.int 1, .int 70000]) = .ok [0x03, 0x18, 0x00, 0x00, 0x01, 0x01, 0x11, 0x70] ∧
+    (match readRva 12 [0x03, 0x18, 0x00, 0x00, 0x01, 0x01, 0x11, 0x70] with
+     | .ok (v, r) => Val.beq v (.list [.int 1, .int 70000]) && r.isEmpty
      | .error _ => false) = true := by
   constructor <;> decide +kernel
 
-/-- … while equal widths do (instance; no general RVASpec theorem is proved) -/
+/-- equal widths (instance; no general RVASpec theorem is proved) -/
 theorem rva_equal_width_instance :
     writeRva 12 (.list [.int (-2), .int 300, .int 65535, .int 0]) = .ok [0x02, 0x10, 0, 2, 1, 44, 255, 255, 0, 0] ∧
     (match readRva 12 [0x02, 0x10, 0, 2, 1, 44, 255, 255, 0, 0] with
@@ -378,12 +378,12 @@ theorem v23_zero_tail_counterexample :
 def chapBody : Bytes :=
   [99, 0, 0, 0, 0, 0, 0, 0, 0, 1, 0, 0, 0, 2, 0, 0, 0, 3, 80, 82, 73, 86, 0, 0, 0, 5, 0, 0, 111, 0, 255, 0, 1]
 
-/-- the hypothesis `h.unsynch = false` of `flags_equiv_unsynch` cannot be dropped: when the TAG
-header carries the unsynchronisation flag too, `_fromData` un-unsynchronises every nested
-frame of a CHAP/CTOC a second time (`header.f_unsynch` is consulted again for the
-sub-frames), so the `FF 00 01` payload of a PRIV sub-frame comes back as `FF 01`
-(harness key `CHAP:tag+frame-unsynchronised-input`) -/
-theorem nested_global_unsynch_counterexample :
+/-- when the TAG header carries the unsynchronisation flag too, the nested frames of a
+CHAP/CTOC are read with the flag cleared (the enclosing frame has been decoded already), so
+the `FF 00 01` payload of a PRIV sub-frame survives.  Before the repair recorded in
+known_findings.json it came back as `FF 01` (harness key
+`CHAP:tag+frame-unsynchronised-input`). -/
+theorem nested_global_unsynch_instance :
     (match fromData (readTag tbl) { version := 4 } (clsOf "CHAP") 0 chapBody with
      | .frame vs => Val.beqList vs [.text [99], .int 0, .int 1, .int 2, .int 3,
           .list [.frame "PRIV" [.text [111], .bytes [255, 0, 1]]]]
@@ -391,7 +391,7 @@ theorem nested_global_unsynch_counterexample :
     (match fromData (readTag tbl) { version := 4, unsynch := true } (clsOf "CHAP") FLAG24_UNSYNCH
         (unsynchEncode chapBody) with
      | .frame vs => Val.beqList vs [.text [99], .int 0, .int 1, .int 2, .int 3,
-          .list [.frame "PRIV" [.text [111], .bytes [255, 1]]]]
+          .list [.frame "PRIV" [.text [111], .bytes [255, 0, 1]]]]
      | _ => false) = true := by
   constructor <;> decide +kernel
 
